@@ -747,6 +747,7 @@ static void io_child(int scen, int workers, unsigned seed, int out) {
     for (int i = 0; i <= workers; i++)
       if (i == stuck || (io_prog[i] == last_val[i] && t - last_change[i] > 2000))
         snprintf(who + strlen(who), sizeof(who) - strlen(who), "%s%s%.0d", who[0] ? "," : "", i ? "w" : "io", i);
+    if (getenv("LKIO_HANG")) { fprintf(stderr, "lkio: stuck threads=%s, pid %d waits for a debugger\n", who, (int)getpid()); sleep(600); }
     IO_DONE("stuck threads=%s lock-owner-assert=%d", who, h_fault);
   }
   if (h_fault || io_overlap) IO_DONE("unserialised api-call-during-locked-callback=%d lock-owner-assert=%d", io_overlap, h_fault);
@@ -764,12 +765,18 @@ static void do_io(int scen, int workers, unsigned seed) {
   if (scen < 0 || scen > 3 || workers < 1 || workers > IO_MAXW) { printf("bad-op"); return; }
   if (pipe(pfd)) { printf("no-pipe"); return; }
   fflush(stdout);
+  /* The scenario runs in a FRESH process image (fork + exec of this binary): this process has other threads (observer,
+   * workers of earlier lines), and a child that merely forked would inherit whatever allocator / libc locks they held at
+   * that instant — its first malloc in a new thread then blocks for ever, which looks exactly like the deadlock looked for. */
+  char a1[16], a2[16], a3[16];
+  snprintf(a1, sizeof(a1), "%d", scen); snprintf(a2, sizeof(a2), "%d", workers); snprintf(a3, sizeof(a3), "%u", seed);
   pid = fork();
   if (pid < 0) { printf("no-fork"); return; }
   if (pid == 0) {
-    close(pfd[0]);
-    io_child(scen, workers, seed, pfd[1]);
-    _exit(0);
+    char *av[] = { (char *)"h_lockseq", (char *)"--lkio-child", a1, a2, a3, NULL };
+    dup2(pfd[1], 3);
+    execv("/proc/self/exe", av);
+    _exit(127);
   }
   close(pfd[1]);
   for (;;) {
@@ -882,6 +889,14 @@ int main(int argc, char **argv) {
   setvbuf(stdout, NULL, _IOLBF, 0);
   signal(SIGALRM, on_alarm);
   signal(SIGPIPE, SIG_IGN);
+#if LOCKING
+  if (argc == 5 && !strcmp(argv[1], "--lkio-child")) {      /* re-executed by do_io(): one scenario, result to fd 3 */
+    coap_startup();
+    coap_set_log_level(COAP_LOG_EMERG);
+    io_child(atoi(argv[2]), atoi(argv[3]), (unsigned)strtoul(argv[4], NULL, 10), 3);
+    _exit(0);
+  }
+#endif
   sites_path = argc > 2 && strcmp(argv[2], "-") ? argv[2] : NULL;
   if (argc > 1 && strcmp(argv[1], "-")) co_start(argv[1], argc > 2 ? argv[2] : "-");
   for (int i = 3; i < argc && nprobe < 8; i++) {
